@@ -117,7 +117,9 @@ void sim_yield(int seam)
     }
     if (hit)
     {
-      s.done = true;
+      // a user whose Ctrl-C did not stop the program presses it again: re-arm
+      // every `repeat` yields for as long as the same command is executing
+      if (s.repeat != 0 && s.trigger == 3) { s.k = s.repeat; } else { s.done = true; }
       if (seam == SEAM_USLEEP) { sim_count(C_SIGINT_IN_RUN); }
       deliver_sigint();
     }
@@ -655,9 +657,9 @@ const char *__ubsan_default_options()
 void sim_finish(int how, int status)
 {
   SharedHeader *h = W.hdr;
+  W.event_ceiling = 0;
   if (how == HOW_EXIT && g_in_callback == 0)
   {
-    W.event_ceiling = 0;
     fflush(NULL);
   }
   W.fill_enabled = false;
@@ -790,6 +792,7 @@ static void child_main(const uint8_t *req, size_t len, int stderr_fd)
     s.trigger = rq.u8();
     s.k = rq.u64();
     s.after = rq.u32();
+    s.repeat = rq.u32();
     s.done = false;
     W.sigs.push_back(s);
   }
